@@ -135,8 +135,125 @@ def big_run_cases(rng, tier):
     return out
 
 
+# --------------------------------------------------------------------------
+# (h) load/save HISTORY: every result must be independent of what was loaded or saved earlier in the process
+# --------------------------------------------------------------------------
+
+def _divisors(n, limit=8):
+    return [b for b in range(1, min(n, limit) + 1) if n % b == 0]
+
+
+def regroup_siblings(rng, entries, common, iw, rw, cap=4):
+    """Valid files RELATED to (entries, common) at word sizes (iw, rw): the flattened index words regrouped with another arity
+    (n*a = m*b), and the same index BYTES read at another word size (and any arity).  -> [(entries', common', iw', rw, relation)]"""
+    flat = [c for k, _ in entries for c in k]
+    a = len(entries[0][0]) if entries else 0
+    out = []
+
+    def rows():
+        return c10.gen_rows(rng, small=True) if rw < 4 else c10.gen_rows(rng)
+    for b in _divisors(len(flat)):
+        if b == a:
+            continue
+        keys = [tuple(flat[i:i + b]) for i in range(0, len(flat), b)]
+        if len(set(keys)) == len(keys):
+            out.append(([(k, rows()) for k in keys], common, iw, rw, "same words, arity %d -> %d" % (a, b)))
+    raw = b"".join(struct.pack(c10.FMT[iw], c) for c in flat)
+    for iw2 in (1, 2, 4, 8):
+        if iw2 == iw or not raw or len(raw) % iw2:
+            continue
+        words = list(struct.unpack("<%d%s" % (len(raw) // iw2, c10.FMT[iw2][1]), raw))
+        if max(words) >= 2 ** 63:
+            continue
+        common2 = common if common < 256 ** iw2 else rng.randint(0, 255)
+        for b in rng.sample(_divisors(len(words)), min(2, len(_divisors(len(words))))):
+            keys = [tuple(words[i:i + b]) for i in range(0, len(words), b)]
+            if len(set(keys)) == len(keys):
+                out.append(([(k, rows()) for k in keys], common2, iw2, rw, "same index bytes, word %d -> %d, arity %d" % (iw, iw2, b)))
+    rng.shuffle(out)
+    return out[:cap]
+
+
+SMALLEST_HISTORIES = [
+    [((1,), [7, 9]), ((0,), [])], [((513,), [1]), ((2,), [0, 2])], [((0, 1), [0]), ((2, 3), [1]), ((4, 5), [2, 3])],
+    [((1, 0, 2, 0), [5])], [((3,), [0]), ((0,), [1]), ((3, 0), [2])][:2], [((7, 7, 1), [0, 1]), ((7, 1, 7), [2])],
+]
+
+
+def history_stream(ctx, impl, n_bases):
+    """Sequences of loads (and saves) in THIS process: a file, its siblings, again in the other order, repeated, interleaved with an
+    unrelated file and with a save.  Returns (case literals for chk_c11_widths, records, failures, distribution)."""
+    rng = ctx.rng
+    lits, recs, bad = [], [], []
+    dist = {"histories": 0, "loads": 0, "saves": 0, "sibling:regrouped-arity": 0, "sibling:other-word-size": 0, "repeated_loads": 0, "unrelated_interleaved": 0}
+    bases = [(list(e), rng.choice([0, 3, 255])) for e in SMALLEST_HISTORIES]
+    while len(bases) < n_bases:
+        entries, common, _d = c10.gen_entries(rng, small_rows=True)
+        if sum(len(k) for k, _ in entries) >= 2:
+            bases.append((entries, common))
+
+    trail = []
+
+    def load_step(tag, hist_id, step, entries, common, iw, rw, relation):
+        file = c10.enc(entries, common, iw, rw)
+        o = impl.load(file)
+        dist["loads"] += 1
+        rec = {"entries": [[list(k), v] for k, v in entries], "common": common, "iw": iw, "rw": rw, "d0": 0, "history": hist_id, "step": step, "relation": relation}
+        trail.append({"entries": rec["entries"], "common": common, "iw": iw, "rw": rw})
+        why = oracle_loaded(entries, common, rw, o)
+        if why:
+            rec = dict(rec, loads_before_and_including_this_one=list(trail))
+            bad.append(dict(rec, stream="h", what="load #%d of a history (%s; %s) of valid files in one process: %s" % (step, tag, relation, why), observed=repr(o)[:400]))
+        lits.append("(%s, %s, [(0, %d, %d, %d, %s)])" % (c10.lit_entries(entries), core.zlit(common), iw, rw, c10.checksum(file), c10.lit_obs(o)))
+        recs.append(rec)
+        ctx.nontrivial.add(("h", hist_id, step, c10.case_key(entries, common), iw, rw))
+
+    for hid, (entries, common) in enumerate(bases):
+        iw = rng.choice([w for w in (1, 2, 4, 8) if w >= c10.narrowest(c10.max_word(entries, common))][:2])
+        rmax = max([0] + [x for _, v in entries for x in v] + [len(v) for _, v in entries])
+        rw = rng.choice([w for w in (1, 2, 4, 8) if w >= c10.narrowest(rmax)][:3])
+        sibs = regroup_siblings(rng, entries, common, iw, rw)
+        if not sibs:
+            continue
+        dist["histories"] += 1
+        for s_ in sibs:
+            dist["sibling:regrouped-arity" if s_[4].startswith("same words") else "sibling:other-word-size"] += 1
+        base = (entries, common, iw, rw, "base file")
+        unrelated, ucommon, _d = c10.gen_entries(rng, small_rows=True)
+        seq = [base] + sibs                                             # base, then its siblings
+        seq += [base]                                                   # base again (repeated load)
+        seq += list(reversed(sibs)) + [sibs[0], base, sibs[0]]          # the other order, alternating
+        dist["repeated_loads"] += 1 + len(sibs) + 3
+        step = 0
+        hist_rec = []
+        del trail[:]
+        for i, (e, c, w1, w2, rel) in enumerate(seq):
+            step += 1
+            load_step("after %s" % (hist_rec[-1] if hist_rec else "nothing"), hid, step, e, c, w1, w2, rel)
+            hist_rec.append(rel)
+            if i == len(sibs):                                          # in the middle: an unrelated load and a real save
+                step += 1
+                uiw = c10.narrowest(c10.max_word(unrelated, ucommon))
+                load_step("unrelated file", hid, step, unrelated, ucommon, uiw, 4, "unrelated file")
+                dist["unrelated_interleaved"] += 1
+                try:
+                    data = impl.save(e, c if c < 2 ** 63 else 0)
+                    dist["saves"] += 1
+                    want = c10.enc(e, c, c10.narrowest(c10.max_word(e, c)), 4)
+                    if data != want and all(x < 2 ** 32 for _, v in e for x in v):
+                        bad.append({"entries": [[list(k), v] for k, v in e], "common": c, "stream": "a", "form": impl.last_form,
+                                    "what": "bytes written differ from the documented layout after a history of loads in the same process"})
+                except Exception as ex:  # noqa
+                    bad.append({"entries": [[list(k), v] for k, v in e], "common": c, "stream": "a", "form": impl.last_form,
+                                "what": "save raised %s: %s after a history of loads" % (type(ex).__name__, ex)})
+    return lits, recs, bad, dist
+
+
 def run(ctx):
-    ctx.rule = ("(a) C10 generator (arity 1..4, 0..6 entries, coordinate x common magnitude classes, boundary row ids) and C10 'scale' generator (2..8 entries mixing "
+    ctx.rule = ("(h) HISTORIES in the process that runs the real loader: a valid file, sibling files with the same flattened index words regrouped at another "
+                "arity (n*a = m*b) or the same index bytes at another word size, loaded one after another in both orders, repeated, interleaved with an unrelated "
+                "file and a real save; every load compared with the data and with the model's load of the same bytes; "
+                "(a) C10 generator (arity 1..4, 0..6 entries, coordinate x common magnitude classes, boundary row ids) and C10 'scale' generator (2..8 entries mixing "
                 "short 0..10 and long 64..600 / 63,64,65 / 255,256,257 / ~70 000-id strictly increasing row-id arrays in every dict order; the ~70 000-id dicts are "
                 "judged by the struct oracle only): real save bytes; "
                 "(b) the same dicts re-encoded by a struct-based encoder at every admissible (iw, rw) in {1,2,4,8}^2 (plus arbitrary recorded "
@@ -232,6 +349,10 @@ def run(ctx):
     for entries, common, desc, in_coq in c10.gen_scale(ctx.rng, 8 if quick else 100, 1 if quick else 4):
         one_dict(entries, common, lits_as, recs_as, lits_bs, recs_bs, max_pairs=2, in_coq=in_coq, stream_tag="scale:")
 
+    # ---------------- (h) histories of loads and saves in this process ----------------
+    lits_h, recs_h, bad_h, hist_dist = history_stream(ctx, impl, 60 if quick else 600)
+    bad.extend(bad_h)
+
     # ---------------- (b) big totals ----------------
     lits_r, recs_r = [], []
     for rs, common, iw, rw in big_run_cases(ctx.rng, ctx.tier):
@@ -290,9 +411,10 @@ def run(ctx):
     rb = core.run_cases("c11b", c10.PRELUDE, lits_b, "entries_t * Z * list (Z * Z * Z * Z * obs)", "chk_c11_widths", "explain_c11_widths", shard_size=60 if quick else 400)
     ras = core.run_cases("c11as", c10.PRELUDE, lits_as, "entries_t * Z * list Z", "chk_c11_bytes", "explain_c11_bytes", shard_size=4 if quick else 12)
     rbs = core.run_cases("c11bs", c10.PRELUDE, lits_bs, "entries_t * Z * list (Z * Z * Z * Z * obs)", "chk_c11_widths", "explain_c11_widths", shard_size=3 if quick else 9)
+    rh = core.run_cases("c11h", c10.PRELUDE, lits_h, "entries_t * Z * list (Z * Z * Z * Z * obs)", "chk_c11_widths", "explain_c11_widths", shard_size=120 if quick else 600)
     rr = core.run_cases("c11r", c10.PRELUDE, lits_r, "list run_t * Z * Z * Z * Z * obs_runs", "chk_c11_runs", "explain_c11_runs", shard_size=1)
     rc = core.run_cases("c11c", c10.PRELUDE, lits_c, "list (list Z) * Z * list Z * list Z * bool", "chk_c11_header", "explain_c11_header", shard_size=400)
-    ctx.evaluations = len(lits_a) + n_scale_files[0] + n_width_files + len(lits_r) + len(lits_c)
+    ctx.evaluations = len(lits_a) + n_scale_files[0] + n_width_files + len(lits_r) + len(lits_c) + len(lits_h)
     ctx.samples = recs_a[:2] + recs_b[:1] + recs_r[:1] + recs_c[:2]
     impl.record_forms()
     ctx.coverage.update({
@@ -302,8 +424,9 @@ def run(ctx):
         "sparse_cases_the_stub_could_not_serve": len(stub_rejected),
         "scale_stream": {"files_saved_for_real": n_scale_files[0], "independent_files_loaded_for_real": n_scale_files[1], "compared_inside_coq": len(lits_as),
                          "oracle_only_(one_~70000-id_array)": n_scale_files[0] - len(lits_as)},
-        "model_disagreements": {"a": len(ra.failing), "b": len(rb.failing), "a_scale": len(ras.failing), "b_scale": len(rbs.failing), "runs": len(rr.failing), "c": len(rc.failing)},
-        "coq_case_shards_failed": len(ra.errors) + len(rb.errors) + len(ras.errors) + len(rbs.errors) + len(rr.errors) + len(rc.errors),
+        "model_disagreements": {"a": len(ra.failing), "b": len(rb.failing), "a_scale": len(ras.failing), "b_scale": len(rbs.failing), "runs": len(rr.failing), "c": len(rc.failing), "history": len(rh.failing)},
+        "load_save_history_stream": hist_dist,
+        "coq_case_shards_failed": len(ra.errors) + len(rb.errors) + len(ras.errors) + len(rbs.errors) + len(rr.errors) + len(rc.errors) + len(rh.errors),
         "tie": "W2 inside Coq: chk_c11_bytes, chk_c11_widths, chk_c11_runs, chk_c11_header (Indx/Check.v)"})
 
     # ---------------- verdict ----------------
@@ -311,12 +434,12 @@ def run(ctx):
         pass
     m = Merged()
     m.failing = ([("a", i) for i in ra.failing] + [("b", i) for i in rb.failing] + [("as", i) for i in ras.failing] + [("bs", i) for i in rbs.failing]
-                 + [("r", i) for i in rr.failing] + [("c", i) for i in rc.failing])
-    m.errors = ra.errors + rb.errors + ras.errors + rbs.errors + rr.errors + rc.errors
-    m.explain = "\n".join(x[-1500:] for x in (ra.explain, rb.explain, ras.explain, rbs.explain, rr.explain, rc.explain) if x)
+                 + [("r", i) for i in rr.failing] + [("c", i) for i in rc.failing] + [("h", i) for i in rh.failing])
+    m.errors = ra.errors + rb.errors + ras.errors + rbs.errors + rr.errors + rc.errors + rh.errors
+    m.explain = "\n".join(x[-1500:] for x in (ra.explain, rb.explain, ras.explain, rbs.explain, rr.explain, rc.explain, rh.explain) if x)
     if bad:
-        bad = sorted(bad, key=lambda r: (["a", "b", "b-big", "c"].index(r["stream"]), len(json.dumps(r, default=str))))
-        sig = {"a": "layout:bytes-differ", "b": "layout:independent-file-misread", "b-big": "layout:independent-file-misread", "c": "layout:size-field"}[bad[0]["stream"]]
+        bad = sorted(bad, key=lambda r: (["a", "b", "h", "b-big", "c"].index(r["stream"]), len(json.dumps(r, default=str))))
+        sig = {"a": "layout:bytes-differ", "b": "layout:independent-file-misread", "h": "layout:load-depends-on-history", "b-big": "layout:independent-file-misread", "c": "layout:size-field"}[bad[0]["stream"]]
         ctx.report(sig, bad[0]["what"], {"failing_inputs": bad[:10], "count": len(bad),
                    "how": "IndxIO on real files, judged by the struct-based encoder/decoder written from the docstring (no model involved)"})
     elif m.failing or m.errors or not proof_ok or stub_rejected:
@@ -330,7 +453,7 @@ def run(ctx):
             w.append("correspondence suites c11a/b/r/c: %d cases where the code differs from the model/specification" % len(m.failing))
         if m.errors:
             w.append("correspondence shards failed to evaluate: %s" % (m.errors[0][1][-400:],))
-        pick = {"a": recs_a, "b": recs_b, "as": recs_as, "bs": recs_bs, "r": recs_r, "c": recs_c}
+        pick = {"a": recs_a, "b": recs_b, "as": recs_as, "bs": recs_bs, "r": recs_r, "c": recs_c, "h": recs_h}
         ctx.report("c11:not-shown", "; ".join(w), {
             "broken_proof_log": (pr["log"] or "")[-2500:] if not pr["ok"] else "",
             "disagreeing_cases": [dict(pick[s][i], stream=s) for s, i in m.failing[:10]], "explain": m.explain[-3000:],
@@ -358,6 +481,13 @@ def replay(ctx, path):
         elif s == "b":
             entries = [(tuple(k), list(v)) for k, v in c["entries"]]
             why = oracle_loaded(entries, c["common"], c["rw"], impl.load(c10.enc(entries, c["common"], c["iw"], c["rw"], c.get("d0", 0))))
+        elif s == "h":
+            for st in c.get("loads_before_and_including_this_one", []):
+                e_ = [(tuple(k), list(v)) for k, v in st["entries"]]
+                why = oracle_loaded(e_, st["common"], st["rw"], impl.load(c10.enc(e_, st["common"], st["iw"], st["rw"])))
+                if why:
+                    why = "in a history of %d loads: %s" % (len(c["loads_before_and_including_this_one"]), why)
+                    break
         elif s == "b-big":
             entries = [(tuple(k), list(range(st, st + n))) for k, st, n in c["runs"]]
             why = oracle_loaded(entries, c["common"], c["rw"], impl.load(c10.enc(entries, c["common"], c["iw"], c["rw"])))
